@@ -137,7 +137,8 @@ theorem idempotent_of_roundtrip (parse : String → Option Expr) (w : Option Nat
 section text
 open Blots.ExprPeg Blots.FormatFrag
 
-/-- C08 ON THE OPERATOR FRAGMENT, every width: the formatted text of a fragment tree is read
+/-- C08 ON THE FRAGMENT of C10 (`Frag`: operators, calls, index, field, list literals,
+    lambdas, conditionals), every width: the formatted text of a fragment tree is read
     back (character-level PEG recogniser + Pratt parser) to a tree whose formatted text is the
     same text. -/
 theorem format_idempotent_fragment (t : Expr) (h : Frag t) (w : Nat) :
